@@ -142,7 +142,17 @@ impl Compile {
 
     fn run_on_single_file(&self, source: &PathBuf, destination: &PathBuf) -> Result<()> {
         let grammar = fs::read_to_string(source)?;
-        let source_header = format!("{}\n{}", generate_source_header(&grammar), self.prefix);
+        // The header identifies everything the output depends on besides the library itself:
+        // the grammar (CRC in the common header) and the prefix (CRC below), so that any prefix
+        // change - including shortening or removing it - invalidates an existing destination.
+        let prefix_crc =
+            crc::Crc::<u32>::new(&crc::CRC_32_ISO_HDLC).checksum(self.prefix.as_bytes());
+        let source_header = format!(
+            "{}// CRC-32/ISO-HDLC of the prefix: {:08x}\n\n{}",
+            generate_source_header(&grammar),
+            prefix_crc,
+            self.prefix
+        );
         if let Ok(f) = File::open(destination) {
             let mut existing_header = String::new();
             if f.take(source_header.len() as u64)
